@@ -575,6 +575,21 @@ def work(item, res):
         for u in ("neg", "abs"):
             for dest in dests:
                 run_case((u, lt), dest, None, vec, res, kernel_every, 1)
+    elif kind == "un2":
+        # a unary operator below / above one binary operator: the type the
+        # unary result carries decides how the binary operator is generated
+        a, b, dests = payload
+        vec2 = vector_fn(seed, True)
+        n = 0
+        for u in ("neg", "abs"):
+            for op in OPS:
+                for dest in dests:
+                    trees = [(op, (u, a), b), (u, (op, a, b))]
+                    if b[0] != "const":
+                        trees.append((op, a, (u, b)))
+                    for tree in trees:
+                        n += 1
+                        run_case(tree, dest, None, vec2, res, kernel_every, n)
     elif kind == "d2":
         a, b, c, ops, dests = payload
         vec2 = vector_fn(seed, True)
@@ -655,6 +670,21 @@ def run(ctx):
             items.append(("d1", (lt, rt, dests), ctx.seed, ctx.quick, ke))
     for lt in leaves:
         items.append(("un", (lt, dests), ctx.seed, ctx.quick, ke))
+    # unary operators combined with one binary operator
+    if ctx.quick:
+        ul = [("reg", "r"), ("reg", "w"), ("loc", "I"), ("loc", "h"),
+              ("reg", "sr")]
+        ur = ul + [("const", 2), ("const", -3)]
+        ud = [("reg", "sr"), ("loc", "i"), ("loc", "q"), ("loc", "H")]
+    else:
+        ul = [("reg", k) for k in ("r", "sr", "w", "sw")] + \
+            [("loc", f) for f in "BhIiQq"] + [("pkt", "H")]
+        ur = ul + [("const", c) for c in (2, -3, 31, 1 << 31)]
+        ud = [("reg", "r"), ("reg", "sr"), ("reg", "sw"), ("loc", "i"),
+              ("loc", "q"), ("loc", "H"), ("loc", "Q")]
+    for a in ul:
+        for b in ur:
+            items.append(("un2", (a, b, ud), ctx.seed, ctx.quick, ke))
     # depth 2
     if ctx.quick:
         l2 = [("reg", "r"), ("reg", "sw"), ("loc", "h"), ("const", 3),
